@@ -180,7 +180,7 @@ func (c *Ctx) GuardedFlow(construct string, fn *ssa.Function, fp FlowPoint, clau
 			gates = append(gates, cl.String())
 			continue // the edge itself establishes the gate
 		}
-		q := ReachQ{Fn: fn, From: opt.From, CutEdge: cut, CutInstr: opt.CutInstr,
+		q := ReachQ{Fn: fn, From: opt.From, CutEdge: cut, CutInstr: opt.CutInstr, Descend: opt.CutEdge == nil || opt.Descend,
 			SinkEdge: func(b *ssa.BasicBlock, s int) bool { return b == fp.EdgeFrom && s == fp.EdgeSucc }}
 		r := q.Run()
 		c.cur.Blocks += r.Blocks
@@ -591,4 +591,244 @@ func (c *Ctx) CheckErrPropagated(construct string, fn *ssa.Function, cc ssa.Call
 		return false
 	}
 	return c.Check(okProp, construct, cc.Pos(), "a refusal by "+what+" fails "+SSAFuncName(fn), SSAFuncName(fn)+" can succeed although "+what+" refused: "+c.P.PathString(path))
+}
+
+// PrivateHelperOf: fn is an unexported function or method (or a closure) of the same package that
+// is only ever called directly - never used as a value - and only from functions whose name is in
+// allow or that are themselves such helpers (an extracted helper acts on behalf of its only
+// callers).
+func (p *Prog) PrivateHelperOf(fn *ssa.Function, allow map[string]bool) bool {
+	var rec func(fn *ssa.Function, depth int) bool
+	rec = func(fn *ssa.Function, depth int) bool {
+		if fn == nil || depth > 3 {
+			return false
+		}
+		if allow[SSAFuncName(fn)] {
+			return true
+		}
+		if fn.Parent() != nil {
+			return rec(fn.Parent(), depth+1)
+		}
+		obj, ok := fn.Object().(*types.Func)
+		if !ok || obj.Exported() {
+			return false
+		}
+		uses := p.UsesOf(obj)
+		if len(uses) == 0 {
+			return false
+		}
+		for _, u := range uses {
+			if !u.AsCall || u.Fn == nil || u.Fn.Pkg != fn.Pkg || !rec(u.Fn, depth+1) {
+				return false
+			}
+		}
+		return true
+	}
+	return rec(fn, 0)
+}
+
+// LiftPred: pred, also seen through the parameters of helper h at its call cc (a value of h that
+// is h's i-th parameter satisfies pred when the i-th argument of cc does).
+func LiftPred(pred func(ssa.Value) bool, h *ssa.Function, cc ssa.CallInstruction) func(ssa.Value) bool {
+	return func(v ssa.Value) bool {
+		if pred(v) {
+			return true
+		}
+		if p, ok := Strip(v).(*ssa.Parameter); ok && p.Parent() == h {
+			for i, hp := range h.Params {
+				if hp == p && i < len(cc.Common().Args) {
+					return pred(cc.Common().Args[i])
+				}
+			}
+		}
+		return false
+	}
+}
+
+// OkHelper: "the error returned by a same-package helper called from fn is nil", where the helper
+// returns nil only across an edge establishing one of mk(h, cc) - the check was moved into a
+// function of its own (if err := d.checkSize(n); err != nil { return err }).
+func OkHelper(name string, fn *ssa.Function, mk func(h *ssa.Function, cc ssa.CallInstruction) []Atom) Atom {
+	cache := map[ssa.CallInstruction]bool{}
+	return Atom{Name: name + " (checked in a helper)", Match: func(c Cond) Pol {
+		return c.CmpIs(token.EQL, func(v ssa.Value) bool {
+			cc, idx, ok := CallResult(v)
+			if !ok {
+				return false
+			}
+			if r, done := cache[cc]; done {
+				return r
+			}
+			res := false
+			h := cc.Common().StaticCallee()
+			if h != nil && h.Pkg == fn.Pkg && len(h.Blocks) > 0 && h != fn && idx == h.Signature.Results().Len()-1 {
+				atoms := mk(h, cc)
+				cut := AtomEdges(atoms...)
+				n := 0
+				res = len(atoms) > 0
+				for _, lf := range ReturnLeaves(h, -1) {
+					if !IsNilConst(lf.Val) {
+						continue
+					}
+					n++
+					q := ReachQ{Fn: h, CutEdge: cut}
+					switch {
+					case lf.EdgeFrom != nil:
+						if cut(lf.EdgeFrom, lf.EdgeSucc) {
+							continue
+						}
+						from, succ := lf.EdgeFrom, lf.EdgeSucc
+						q.SinkEdge = func(b *ssa.BasicBlock, s int) bool { return b == from && s == succ }
+					case lf.Instr != nil:
+						at := lf.Instr
+						q.Sink = func(in ssa.Instruction) bool { return in == at }
+					default:
+						res = false
+						continue
+					}
+					if q.Run().Found {
+						res = false
+					}
+				}
+				if n == 0 {
+					res = false
+				}
+			}
+			cache[cc] = res
+			return res
+		}, isNilVal)
+	}}
+}
+
+// HelpersOf lists the private helpers of fn: same-package unexported functions (or closures) that
+// are only ever called, directly, from fn or from other such helpers (PrivateHelperOf).
+func (p *Prog) HelpersOf(fn *ssa.Function) []*ssa.Function {
+	allow := map[string]bool{SSAFuncName(fn): true}
+	seen := map[*ssa.Function]bool{fn: true}
+	var out []*ssa.Function
+	var walk func(f *ssa.Function, depth int)
+	walk = func(f *ssa.Function, depth int) {
+		if depth > 2 {
+			return
+		}
+		visit := func(h *ssa.Function) {
+			if h == nil || seen[h] || len(h.Blocks) == 0 || h.Pkg != fn.Pkg {
+				return
+			}
+			seen[h] = true
+			if p.PrivateHelperOf(h, allow) {
+				out = append(out, h)
+				walk(h, depth+1)
+			}
+		}
+		for _, b := range f.Blocks {
+			for _, in := range b.Instrs {
+				if cc, ok := in.(ssa.CallInstruction); ok {
+					visit(cc.Common().StaticCallee())
+				}
+			}
+		}
+		for _, cl := range f.AnonFuncs {
+			visit(cl)
+		}
+	}
+	walk(fn, 0)
+	return out
+}
+
+// CallSitesDeep: the call sites of objs in fn; when fn has none, those in its private helpers
+// (the call moved into an extracted function or a local closure).
+func (p *Prog) CallSitesDeep(fn *ssa.Function, objs ...*types.Func) (calls []ssa.CallInstruction, in *ssa.Function) {
+	if cs := CallSites(fn, objs...); len(cs) > 0 {
+		return cs, fn
+	}
+	for _, h := range p.LocalCallees(fn) {
+		if cs := CallSites(h, objs...); len(cs) > 0 {
+			return cs, h
+		}
+	}
+	return nil, fn
+}
+
+// ThroughHelpers replaces every leaf that is a result of a same-package helper (with a body) by
+// the leaves of what that helper returns for that result (one level): `a, b := pick(kind, rule)`
+// is looked through to the values pick returns.
+func ThroughHelpers(leaves []FlowPoint, pkg *ssa.Package) []FlowPoint {
+	var out []FlowPoint
+	for _, lf := range leaves {
+		cc, idx, ok := CallResult(lf.Val)
+		if ok {
+			if h := cc.Common().StaticCallee(); h != nil && h.Pkg == pkg && len(h.Blocks) > 0 {
+				if hl := ReturnLeaves(h, idx); len(hl) > 0 {
+					out = append(out, hl...)
+					continue
+				}
+			}
+		}
+		out = append(out, lf)
+	}
+	return out
+}
+
+// CallsMatchingDeep: the calls of fn matched by m; when fn has none, the calls in fn of a private
+// helper or local closure whose body makes such a call (the call site of the wrapper stands for
+// the wrapped call: same position in fn's control flow, and - by convention checked by the caller
+// where it matters - the wrapper returns the wrapped call's verdict).
+func (p *Prog) CallsMatchingDeep(fn *ssa.Function, m CallM) []ssa.CallInstruction {
+	if cs := CallsMatching(fn, m); len(cs) > 0 {
+		return cs
+	}
+	wraps := map[*ssa.Function]bool{}
+	for _, h := range p.LocalCallees(fn) {
+		if len(CallsMatching(h, m)) > 0 {
+			wraps[h] = true
+		}
+	}
+	var out []ssa.CallInstruction
+	if len(wraps) == 0 {
+		return nil
+	}
+	for _, b := range fn.Blocks {
+		for _, in := range b.Instrs {
+			if cc, ok := in.(ssa.CallInstruction); ok {
+				if h := cc.Common().StaticCallee(); h != nil && wraps[h] {
+					out = append(out, cc)
+				}
+			}
+		}
+	}
+	return out
+}
+
+// LocalCallees lists the unexported same-package functions and local closures that fn calls
+// directly (transitively, two levels): code that runs as part of fn whoever else may call it.
+func (p *Prog) LocalCallees(fn *ssa.Function) []*ssa.Function {
+	seen := map[*ssa.Function]bool{fn: true}
+	var out []*ssa.Function
+	var walk func(f *ssa.Function, depth int)
+	walk = func(f *ssa.Function, depth int) {
+		if depth > 1 {
+			return
+		}
+		for _, b := range f.Blocks {
+			for _, in := range b.Instrs {
+				cc, ok := in.(ssa.CallInstruction)
+				if !ok {
+					continue
+				}
+				h := cc.Common().StaticCallee()
+				if h == nil || seen[h] || len(h.Blocks) == 0 || h.Pkg != fn.Pkg {
+					continue
+				}
+				if obj, isF := h.Object().(*types.Func); isF && obj.Exported() {
+					continue
+				}
+				seen[h] = true
+				out = append(out, h)
+				walk(h, depth+1)
+			}
+		}
+	}
+	walk(fn, 0)
+	return out
 }
